@@ -3,6 +3,7 @@ package lib
 import (
 	"math/rand"
 	"runtime"
+	"strings"
 	"sync"
 )
 
@@ -50,4 +51,16 @@ func SetEq(a, b []string) bool {
 		}
 	}
 	return true
+}
+
+// Namespaces a profile may bind its prefix to: not every vocabulary ends in '#' or '/'.
+var Namespaces = []string{EX, "urn:ex:vocab:", "http://ex.org/terms_", "http://ex.org/q?t=", "http://ex.org/v#", "tag:ex.org,2024:"}
+
+// Rebase moves a data document (or a report) from one namespace to another, textually: the namespaces above need no
+// escaping inside JSON strings and do not occur in anything else the harness writes.
+func Rebase(text, from, to string) string {
+	if from == to {
+		return text
+	}
+	return strings.ReplaceAll(text, from, to)
 }
